@@ -290,6 +290,14 @@ def prove(goal: BoolSym, assumptions=(), extra_axioms=(), timeout_ms=None, use_c
     # pure ring identity: goal is an equality (or conjunction of them) whose residual vanished
     # already at construction (BoolSym.cmp folds constants), so reaching here means non-trivial.
     atoms = all_atoms([goal, *assumptions])
+    if goal.k[0] == "eq":
+        w = poly_witness(goal, assumptions)
+        if w is not None:
+            dt = time.time() - t0
+            STATS["norm_calls"] += 1
+            STATS["norm_s"] += dt
+            return Result("refuted", "normaliser", dt, model=w,
+                          detail="non-zero residual; exact rational witness satisfies all assumptions")
     s = z3.Solver()
     s.set("timeout", timeout_ms or Z3_TIMEOUT_MS)
     for a in assumptions:
@@ -355,4 +363,120 @@ def _cvc5(smt2: str):
         return "proved", dt
     if first == "sat":
         return "refuted", dt
+    return None
+
+
+# --------------------------------------------------------------------------------------------
+# exact evaluation and polynomial-residual witnesses (normaliser refutation, DESIGN 3.4)
+# --------------------------------------------------------------------------------------------
+class NotEvaluable(Exception):
+    pass
+
+
+def eval_sym(s: Sym, env) -> Fraction:
+    """exact value of s; env(atom) -> Fraction for var / cell atoms (cell: called with evaluated index)."""
+    tot = Fraction(0)
+    for m, c in s.p.items():
+        t = c
+        for aid, e in m:
+            v = eval_atom(ATOMS[aid], env)
+            if e < 0 and v == 0:
+                raise NotEvaluable("division by zero")
+            t = t * v**e
+        tot += t
+    return tot
+
+
+def eval_atom(a: Atom, env) -> Fraction:
+    k = a.kind
+    if k == "var":
+        return env("var", a.args[0], a.sort)
+    if k == "cell":
+        idx = tuple(int(eval_sym(Sym._from_key(x), env)) for x in a.args[1])
+        return env("cell", (a.args[0], idx), a.sort)
+    if k == "ite":
+        return eval_sym(Sym._from_key(a.args[1] if eval_bool(BoolSym._from_key(a.args[0]), env) else a.args[2]), env)
+    if k == "inv":
+        v = eval_sym(Sym._from_key(a.args[0]), env)
+        if v == 0:
+            raise NotEvaluable("division by zero")
+        return 1 / v
+    if k == "abs":
+        return abs(eval_sym(Sym._from_key(a.args[0]), env))
+    if k == "floor":
+        import math
+        return Fraction(math.floor(eval_sym(Sym._from_key(a.args[0]), env)))
+    raise NotEvaluable(k)
+
+
+def eval_bool(b: BoolSym, env) -> bool:
+    k = b.k
+    if k[0] == "const":
+        return k[1]
+    if k[0] in ("lt", "le", "eq"):
+        v = eval_sym(Sym._from_key(k[1]), env)
+        return v < 0 if k[0] == "lt" else v <= 0 if k[0] == "le" else v == 0
+    if k[0] == "not":
+        return not eval_bool(BoolSym(k[1]), env)
+    if k[0] == "and":
+        return all(eval_bool(BoolSym(x), env) for x in k[1])
+    return any(eval_bool(BoolSym(x), env) for x in k[1])
+
+
+def poly_witness(goal: BoolSym, assumptions, tries=40, seed=0):
+    """For goal `residual == 0` with a non-zero residual over independent atoms: an exact rational
+    assignment satisfying the assumptions under which the residual is non-zero, or None."""
+    import random
+
+    if goal.k[0] != "eq":
+        return None
+    res = Sym._from_key(goal.k[1])
+    atoms = all_atoms([goal, *assumptions])
+    if any(ATOMS[a].kind not in ("var", "cell", "ite", "inv", "abs", "floor") for a in atoms):
+        return None
+    int_vars = [ATOMS[a] for a in atoms if ATOMS[a].kind == "var" and ATOMS[a].sort == "int"]
+    s = z3.Solver()
+    s.set("timeout", 5000)
+    for f in assumptions:
+        if all(ATOMS[a].kind == "var" and ATOMS[a].sort == "int" for a in all_atoms([f])):
+            s.add(bool_z3(f))
+    rng = random.Random(seed)
+    for bound in (6, 12, 40, None):
+        s.push()
+        if bound is not None:
+            for v in int_vars:
+                s.add(atom_z3(v) <= bound, atom_z3(v) >= -bound)
+        ok = s.check() == z3.sat
+        model = s.model() if ok else None
+        s.pop()
+        if not ok:
+            continue
+        ints = {v.args[0]: model.eval(atom_z3(v), model_completion=True).as_long() for v in int_vars}
+        for _ in range(tries):
+            vals = {}
+
+            def env(kind, key, sort, vals=vals):
+                if kind == "var" and sort == "int":
+                    return Fraction(ints[key])
+                k = (kind, key)
+                if k not in vals:
+                    vals[k] = Fraction(rng.randint(-6, 6), rng.choice((1, 1, 2, 3))) if rng.random() < 0.8 else Fraction(rng.randint(1, 9))
+                return vals[k]
+
+            try:
+                if not all(eval_bool(f, env) for f in assumptions):
+                    # retry with positive values (typical preconditions: dx, nu, ... > 0)
+                    for k in list(vals):
+                        vals[k] = abs(vals[k]) + Fraction(1, 3)
+                    if not all(eval_bool(f, env) for f in assumptions):
+                        continue
+                r = eval_sym(res, env)
+            except NotEvaluable:
+                continue
+            if r != 0:
+                out = dict(ints)
+                for (kind, key), v in vals.items():
+                    out[key if kind == "var" else f"{key[0]}[{', '.join(map(str, key[1]))}]"] = str(v)
+                out["_residual"] = str(r)
+                return out
     return None
